@@ -558,6 +558,11 @@ func runCutCase(c cutCase) (viol []string, sig string) {
 			time.Sleep(5 * time.Millisecond)
 		case "hang":
 			<-release
+		case "hang-updating":
+			// the hanging plugin also has an unsolicited update of its own in flight
+			go e.plugins[p].Stub.UpdateContainers([]*api.ContainerUpdate{{ContainerId: "by-the-hanging-plugin"}})
+			time.Sleep(5 * time.Millisecond)
+			<-release
 		}
 	}
 	var err error
@@ -687,6 +692,35 @@ func runCutCase(c cutCase) (viol []string, sig string) {
 	if (c.Call == "CreateContainer" || c.Call == "UpdateContainer" || c.Call == "StopContainer") && fmt.Sprint(updTargets(r.ups)) != fmt.Sprint(expU) {
 		add("contributions", "response carries updates %v, expected %v", updTargets(r.ups), expU)
 	}
+	// every surviving plugin was asked exactly once (events carry no contribution to look at)
+	invoked := func(round int, id string) {
+		for p := 0; p < c.N; p++ {
+			if c.isVictim(p) {
+				continue
+			}
+			withID, podScoped := 0, 0
+			for _, cl := range e.plugins[p].Calls() {
+				if cl.Method != c.Call {
+					continue
+				}
+				if cl.Ctr == id {
+					withID++
+				}
+				if cl.Ctr == "" {
+					podScoped++
+				}
+			}
+			// container-scoped calls carry the request's container id; pod-scoped ones are counted in total
+			n, want := withID, 1
+			if podScoped > 0 {
+				n, want = podScoped, round
+			}
+			if n != want {
+				add("survivor-not-invoked", "request %d: surviving plugin %d handled %s %d times, expected %d", round, p, c.Call, n, want)
+			}
+		}
+	}
+	invoked(1, "c1")
 	if c.Fault == "stop-after" {
 		e.plugins[c.Victim].Stub.Stop()
 	}
@@ -724,6 +758,9 @@ func runCutCase(c cutCase) (viol []string, sig string) {
 	}
 	if after := len(e.plugins[c.Victim].Calls()); after != before {
 		add("dropped-plugin-called-again", "the dropped plugin received another request")
+	}
+	if len(viol) == 0 {
+		invoked(2, "c2")
 	}
 	if c.Fault2 != "" {
 		if after := len(e.plugins[c.Victim2].Calls()); after != before2 {
@@ -786,7 +823,7 @@ func engineCuts(f *rep.Flags, res *rep.Result) {
 				for k := int64(0); k < rs; k++ {
 					cases = append(cases, cutCase{Call: cn, N: n, Victim: v, Fault: "rt-cut-read", Offset: k})
 				}
-				for _, ft := range []string{"stop-before", "stop-inside", "stop-after", "hang", "handler-error", "flood"} {
+				for _, ft := range []string{"stop-before", "stop-inside", "stop-after", "hang", "hang-updating", "handler-error", "flood"} {
 					cases = append(cases, cutCase{Call: cn, N: n, Victim: v, Fault: ft})
 				}
 				for _, k := range []int64{0, rq / 2, rq - 1} {
